@@ -698,6 +698,117 @@ theorem rotateAuto_head_fresh (c : KeyCfg) (rand : List Bytes) (now : Int) (c' :
       subst h3
       exact ⟨_, _, rfl, by simp [ticketKeyRotation]⟩
 
+/-! ### gap audit (fourth wave): exact acceptance decisions -/
+
+/-- **Expiry decision, exact, over the T1-extracted constant**: for every clock value and creation time in the
+    non-wrapping range (0 ≤ now, both below 2^62 s — about 10^11 years), a ticket is refused as expired iff it is
+    STRICTLY older than `maxSessionTicketLifetime` as extracted from the tree (a ticket of exactly 7 days resumes). -/
+theorem ticketExpired_iff (now : Int) (created : Nat) (h0 : 0 ≤ now) (h1 : now < 2 ^ 62) (h2 : created < 2 ^ 62) :
+    ticketExpired now created = true ↔ now - (created : Int) > Gen.maxSessionTicketLifetimeS := by
+  unfold ticketExpired wrap64 unixToInternal maxSessionTicketLifetime Gen.maxSessionTicketLifetimeS
+  simp only [decide_eq_true_eq, Int.ofNat_eq_natCast]
+  omega
+
+section decision12
+variable (hmac : Bytes → Bytes → Bytes) (ctr : Bytes → Bytes → Nat → Bytes)
+
+/-- **TLS ≤ 1.2 acceptance decision, exact**: for a ticket that authenticates and decrypts to the encoding of `s`
+    the server resumes — with exactly `s` and `s`'s suite — IF AND ONLY IF the scenario is `Resumable`
+    (tickets enabled, not older than 7 days, negotiated version = session version, suite offered, configured and
+    usable, client-certificate requirements met); in every other scenario the decision is a full handshake. -/
+theorem resume_iff (suiteByID : Nat → Option SuiteInfo) (x : Ctx12) (s : SessionState) (b : s.Bounded)
+    (keys : List TicketKey) (t : Bytes) (old : Bool) (hd : decryptTicket hmac ctr keys t = some (s.bytes, old)) :
+    (checkForResumption12 hmac ctr suiteByID x keys t = some ({ s with usedOldKey := old }, s.cipherSuite)
+        ↔ Resumable suiteByID x s) ∧
+    (checkForResumption12 hmac ctr suiteByID x keys t = none ↔ ¬ Resumable suiteByID x s) := by
+  have key : ∀ st suite, checkForResumption12 hmac ctr suiteByID x keys t = some (st, suite) →
+      st = { s with usedOldKey := old } ∧ suite = s.cipherSuite ∧ Resumable suiteByID x s := by
+    intro st suite h
+    obtain ⟨hdis, ⟨pt, old', hdec, hun⟩, hv, hs, hoff, hconf, huse, hfresh, hneed, hno⟩ :=
+      resume_keeps_version_suite hmac ctr suiteByID x keys t st suite h
+    rw [hd] at hdec
+    simp only [Option.some.injEq, Prod.mk.injEq] at hdec
+    obtain ⟨hpt, hold⟩ := hdec
+    subst hpt; subst hold
+    rw [s.unmarshal_bytes b old] at hun
+    simp only [Option.some.injEq] at hun
+    subst hun
+    subst hs
+    exact ⟨rfl, rfl, ⟨hdis, hfresh, hv.symm, hoff, hconf, huse, hneed, hno⟩⟩
+  refine ⟨⟨fun h => (key _ _ h).2.2, fun ok => resume_of_decrypt hmac ctr suiteByID x s b ok keys t old hd⟩, ?_, ?_⟩
+  · intro h ok
+    rw [resume_of_decrypt hmac ctr suiteByID x s b ok keys t old hd] at h
+    cases h
+  · intro hn
+    cases hc : checkForResumption12 hmac ctr suiteByID x keys t with
+    | none => rfl
+    | some p => exact absurd (key p.1 p.2 hc).2.2 hn
+
+end decision12
+
+section decision13
+variable (hmac : Bytes → Bytes → Bytes) (ctr : Bytes → Bytes → Nat → Bytes)
+
+/-- **TLS 1.3 PSK identity handling**: the client-reported `obfuscated_ticket_age` of the offered identities has
+    no influence on the decision — two hellos offering the same tickets in the same order get the same decision
+    whatever ages they report.  Freshness is decided by the server-side `createdAt` inside the authenticated
+    ticket alone (`psk_accept_keeps_hash`, `ticketExpired_iff`).  (T2 runs the real `checkForResumption` with
+    ages 0 / 7 d ± 1 ms / 2^31 / 2^32-1 / random against this model.) -/
+theorem psk_ignores_obfuscated_age (hash13 : Nat → Option Nat) (binderOk : Nat → SessionState13 → Bool) (x : Ctx13)
+    (keys : List TicketKey) (ids ids' : List PskIdentity) (h : ids.map (·.label) = ids'.map (·.label)) :
+    checkForResumption13Id hmac ctr hash13 binderOk x keys ids = checkForResumption13Id hmac ctr hash13 binderOk x keys ids' := by
+  unfold checkForResumption13Id
+  rw [h]
+
+/-- in particular every age list can be replaced by zeros -/
+theorem psk_age_zero (hash13 : Nat → Option Nat) (binderOk : Nat → SessionState13 → Bool) (x : Ctx13)
+    (keys : List TicketKey) (ids : List PskIdentity) :
+    checkForResumption13Id hmac ctr hash13 binderOk x keys ids
+      = checkForResumption13Id hmac ctr hash13 binderOk x keys (ids.map (fun i => { i with obfuscatedTicketAge := 0 })) := by
+  apply psk_ignores_obfuscated_age
+  simp [Function.comp_def]
+
+end decision13
+
+/-! ### which key list a connection uses (`Config.ticketKeys`) -/
+
+/-- a per-client Config (GetConfigForClient) with `SessionTicketsDisabled` yields NO keys, touches neither
+    Config nor the random stream … -/
+theorem ticketKeys_cfc_disabled (c f : KeyCfg) (rand : List Bytes) (now : Int) (hf : f.disabled = true) :
+    ticketKeys c (some f) rand now = .ok (c, some f, rand, []) := by
+  simp [ticketKeys, hf]
+
+/-- … and with no keys nothing decrypts and nothing can be sealed: such a connection never resumes and never
+    issues a ticket. -/
+theorem no_keys_no_tickets (hmac : Bytes → Bytes → Bytes) (ctr : Bytes → Bytes → Nat → Bytes) (t iv st : Bytes) :
+    decryptTicket hmac ctr [] t = none ∧ encryptTicket hmac ctr [] iv st = .err := by
+  refine ⟨?_, rfl⟩
+  unfold decryptTicket
+  split
+  · rfl
+  · simp [findKey]
+
+/-- explicit keys of the per-client Config win: they are returned as they are (first = encryption key) and the
+    outer Config — in particular its auto-rotation state — is not touched. -/
+theorem ticketKeys_cfc_explicit_wins (c f : KeyCfg) (rand : List Bytes) (now : Int) (hf : f.disabled = false)
+    (hl : isZero f.legacy = false) (he : f.explicit ≠ []) :
+    ticketKeys c (some f) rand now = .ok (c, some f, rand, f.explicit) := by
+  have he' : f.explicit.isEmpty = false := by cases h : f.explicit with
+    | nil => exact absurd h he
+    | cons a l => rfl
+  simp [ticketKeys, hf, initLegacy, hl, he']
+
+/-- **explicit keys switch auto-rotation off**: with `SetSessionTicketKeys` keys in place the connection's key
+    list is exactly that list at every clock value — first key encrypts, all decrypt, nothing is ever dropped or
+    added by time. -/
+theorem ticketKeysOwn_explicit (c : KeyCfg) (rand : List Bytes) (now : Int) (hd : c.disabled = false)
+    (hl : isZero c.legacy = false) (he : c.explicit ≠ []) :
+    ticketKeysOwn c rand now = .ok (c, rand, c.explicit) := by
+  have he' : c.explicit.isEmpty = false := by cases h : c.explicit with
+    | nil => exact absurd h he
+    | cons a l => rfl
+  simp [ticketKeysOwn, hd, initLegacy, hl, he']
+
 /-! ### T1: constants and tables of the tree agree with the model -/
 
 theorem gen_ticketKeyNameLen : Gen.ticketKeyNameLen = ticketKeyNameLen := by decide
@@ -829,3 +940,12 @@ example : decryptTicket mac ks [k1] (iss.ticket mac ks) = some (st.bytes, false)
 /-- … and of `fresh_ticket_after_refusal_resumes_partial`: no ticket presented ⇒ nothing leaks -/
 example : sessionStateAfterCheck12 mac ks ctx [k1] [] = none := by decide
 end ZV.C31.Ex
+
+namespace ZV.C31
+-- gap-audit theorems: hypotheses are satisfiable
+example : (0:Int) ≤ 1700000100 ∧ (1700000100:Int) < 2 ^ 62 ∧ Ex.st.createdAt < 2 ^ 62 := by decide
+example : ([⟨[1], 5⟩, ⟨[2], 604800001⟩] : List PskIdentity).map (·.label) = ([⟨[1], 0⟩, ⟨[2], 0⟩] : List PskIdentity).map (·.label) := rfl
+example : ∃ f : KeyCfg, f.disabled = false ∧ isZero f.legacy = false ∧ f.explicit ≠ [] :=
+  ⟨{ disabled := false, legacy := [1], explicit := [(Ex.k1, 0)], auto := [] }, rfl, by decide, by simp⟩
+example : ∃ f : KeyCfg, f.disabled = true := ⟨{ disabled := true, legacy := [], explicit := [], auto := [] }, rfl⟩
+end ZV.C31
